@@ -211,6 +211,7 @@ func runC13(c *Ctx) {
 	R.Rule("R-state-writers", "who-may-write", "the BDAT status collector is created by handleBdat and dropped by reset()", 1)
 	c.obWriters("Conn.bdatStatus", "one collector per chunked LMTP message", "(*Conn).handleBdat", "(*Conn).reset")
 	ruleResultOnEveryExit(c) // "never deadlocks": the command loop blocks on the delivery result
+	rulePanicUnderLock(c)
 
 	R.Rule("R-status-nonblocking", "E1", "SetStatus and fillRemaining send only inside non-blocking selects on the recipient's channel; misuse panics instead of blocking the backend", 4)
 	if f := c.A.Func("(*statusCollector).SetStatus"); f != nil {
